@@ -1,17 +1,5 @@
-"""C05 — wire codecs total, round-trip, RFC layout."""
+"""C05 part: variable-length integers (RFC 9000 §16)."""
 from vlib import *
-
-MANIFEST = {
-    "category": "proof",
-    "text": ("Lean 4 theorems over executable models of the codecs: for every value the table-driven encoder emits exactly the RFC 9000 "
-             "shortest form, announces the size it writes, and decodes back (round-trip with arbitrary trailing bytes); for every byte "
-             "string the decoder equals an independently written RFC parser, is total and consumes 1/2/4/8 bytes. The model is tied to "
-             "/repo on every run: table rows, masks and dispatch are re-extracted from the Rust source and proved equal to the pinned "
-             "model (bridge lemmas), and the Lean driver is run against the real s2n-codec/s2n-quic-core code on generated inputs."),
-    "note": ("Trusted: Lean kernel (axioms propext, Classical.choice, Quot.sound only), tools/extract.py, the vh-core harness and python "
-             "oracles/generators. Modelled not verified: unsafe pointer writes (compared byte-for-byte by the differential run), zero-copy lifetimes."),
-    "technique": "Lean 4 theorem proving (round-trip/agreement theorems) + regenerated-model bridge lemmas + differential correspondence",
-}
 
 PROP_MODULES = ["QuicProofs.Props.C05VarInt"]
 BRIDGES = ["QuicProofs.Bridge.VarInt"]
@@ -23,8 +11,7 @@ def run(ctx):
                 "distinct when its op line differs")
     ctx.assumptions += ["Lean kernel; tools/extract.py regex extraction of the varint table/masks; vh-core harness and python oracles",
                         "unsafe pointer writes of the encoder are compared byte-for-byte by D (exact-size and roomy buffer), not modelled"]
-    rep = step_extract(ctx)
-    ctx.oblige("extract", "tools/extract.py found every curated item in /repo", not rep["failed"], "; ".join(rep["failed"]))
+    step_extract(ctx, ["varint"])
     lean_ok = step_lean(ctx, PROP_MODULES, BRIDGES)
     ok, out = cargo_build("vh-core")
     if not ok:
